@@ -16,7 +16,7 @@ KINDS = {"main": dict(imports="From SS Require Import Base M_Frames M_FramesRef.
                       mismatch="mismatches3", nontrivial="count_nontrivial3")}
 RULE = ("rank-ordered (acyclic) random unwrap/elaborate tables over 5 objects x 5 frames (sparse) and densely connected nested tables "
         "rooted at object 0 over 3-4 objects x 5-7 frames (frames at several depths; hooks that prune/replace/insert frames that edit again), result alphabets "
-        "{None, item, tuple, list, iterator(+raise), raise, empty} x {None, PRUNE, replace, insert-before, single item, raise}, "
+        "{None, item, tuple, list (None entries), iterator (yielding None first / in between / last / several, +raise), raise, empty} x {None, PRUNE, replace, insert-before, single item, raise}, "
         "plus linear chains around the 100-step guard and a self-loop; thorough adds the exhaustive small scope "
         "(3 objects x 2 frames). distinct = distinct descriptors; non-trivial = model run yields >= 2 frames, a leaf or an error")
 SHARD = 250
@@ -98,13 +98,15 @@ def specials():
     return out
 
 
-ALPH_U = lambda o, no, nf: (
+# iter_none: iterator results that yield None (first / in the middle).  Off by default: c05 reuses exhaustive()
+# with injected faults, where every yielded None would cost a next() tick that the abstraction does not count.
+ALPH_U = lambda o, no, nf, iter_none=False: (
     [["none"], ["raise"], ["seq", [], "tuple"]]
     + [["one", it] for it in _items(o, no, nf)]
     + [["seq", [a, b], "list"] for a in _items(o, no, nf) for b in _items(o, no, nf)]
     + [["iter", [a], r] for a in _items(o, no, nf) for r in (False, True)]
-    + [["iter", [None, a], False] for a in _items(o, no, nf)]
-    + ([["iter", [a, None, b], True] for a in _items(o, no, nf) for b in _items(o, no, nf)] if o == 0 else []))
+    + ([["iter", [None, a], False] for a in _items(o, no, nf)] if iter_none else [])
+    + ([["iter", [a, None, b], True] for a in _items(o, no, nf) for b in _items(o, no, nf)] if iter_none and o == 0 else []))
 ALPH_E = lambda f, no, nf: (
     [["none", None, True], ["seq", [], False], ["raise", None, True], ["seq", [["N"]], False]]
     + [["seq", [["I", a]], False] for a in _items(f, no, nf)]
@@ -116,8 +118,8 @@ def _items(lo, no, nf):
     return [["O", i] for i in range(lo + 1, no)] + [["F", i] for i in range(lo + 1, nf)]
 
 
-def exhaustive(no=3, nf=2, stride=1, offset=0):
-    us = [ALPH_U(o, no, nf) for o in range(no)]
+def exhaustive(no=3, nf=2, stride=1, offset=0, iter_none=False):
+    us = [ALPH_U(o, no, nf, iter_none) for o in range(no)]
     es = [ALPH_E(f, no, nf) for f in range(nf)]
     n = 0
     for combo in itertools.product(*us, *es):
@@ -132,7 +134,7 @@ def exhaustive(no=3, nf=2, stride=1, offset=0):
 
 def exhaustive_samecode(no=3, stride=1, offset=0):
     """2 frames that are two live frames of ONE function: a single hook row serves both."""
-    us = [ALPH_U(o, no, 2) for o in range(no)]
+    us = [ALPH_U(o, no, 2, True) for o in range(no)]
     n = 0
     for combo in itertools.product(*us, ALPH_E(1, no, 2)):
         n += 1
@@ -167,10 +169,10 @@ def make_inputs(tier, seed):
                 if sp[0] == "gen" and ["O", int(o)] != d["root"]:
                     yield dict(d, root=["O", int(o)])
     if tier == "thorough":
-        yield from exhaustive(3, 2)
+        yield from exhaustive(3, 2, iter_none=True)
         yield from exhaustive_samecode(3)
     else:
-        yield from exhaustive(3, 2, stride=97, offset=seed)
+        yield from exhaustive(3, 2, stride=97, offset=seed, iter_none=True)
         yield from exhaustive_samecode(3, stride=11, offset=seed)
 
 
